@@ -3,14 +3,17 @@
 # flags are passed, so iggy_verif is not compiled in). Prints a pass/fail summary and
 # compares against /root/.vp/BASELINE.json (every stable-pass test must still pass).
 set -u
-cd /repo || exit 2
+REPO_DIR=${1:-/repo}
+cd "$REPO_DIR" || exit 2
+TGT=${CARGO_TARGET_DIR:-$REPO_DIR/target}
+LOG=${BASELINE_LOG:-/verif/target/baseline_off.log}
 export CARGO_NET_OFFLINE=true
 [ -f /w/out/rust_env.sh ] && . /w/out/rust_env.sh
 if [ -f /w/lib/nextest.toml ]; then
-  cargo nextest run --workspace --no-fail-fast --tool-config-file pb:/w/lib/nextest.toml --profile pb --test-threads 8 --offline > /verif/target/baseline_off.log 2>&1
-  J=/repo/target/nextest/pb/junit.xml
+  cargo nextest run --workspace --no-fail-fast --tool-config-file pb:/w/lib/nextest.toml --profile pb --test-threads 8 --offline > "$LOG" 2>&1
+  J=$TGT/nextest/pb/junit.xml
 else
-  cargo nextest run --workspace --no-fail-fast --test-threads 8 --offline > /verif/target/baseline_off.log 2>&1
+  cargo nextest run --workspace --no-fail-fast --test-threads 8 --offline > "$LOG" 2>&1
   J=""
 fi
 python3 - "$J" <<'PY'
